@@ -743,6 +743,9 @@ func genTv(r *rand.Rand) ntv {
 			}
 		}
 		t.Bytes = exactBytes(t.Bytes)
+		if len(t.Bytes) == 0 {
+			t.Bytes = nil // what a stored value with no bytes looks like after the store's protobuf round trip
+		}
 		return t
 	}
 }
